@@ -341,3 +341,5 @@ import props_c01
 props_c01.register(_sys.modules[__name__])
 __import__("props_c04").register(_sys.modules[__name__])
 __import__("props_c12").register(_sys.modules[__name__])
+__import__("props_c17").register(_sys.modules[__name__])
+__import__("props_c02").register(_sys.modules[__name__])
